@@ -132,29 +132,73 @@ def total_len(segs):
 
 
 def segs_eq(a, b):
-    """structural equality of two segment lists if they have the same shape, else None"""
+    """equality of two segment lists when they are segmented alike (pairwise equal lengths), else None"""
     sa, sb = segs_of(a), segs_of(b)
     if sa is None or sb is None:
         return None
     sa, sb = normalize(sa), normalize(sb)
+    # split literal segments so that both lists have the same boundaries where lengths are concrete
+    def concrete_lens(ss):
+        return all(isinstance(seg_len(x), int) for x in ss)
+    if concrete_lens(sa) and concrete_lens(sb):
+        if sum(seg_len(x) for x in sa) != sum(seg_len(x) for x in sb):
+            return False
+        sa, sb = _align(sa, sb)
+        if sa is None:
+            return None
     if len(sa) != len(sb):
         return None
     conds = []
     for x, y in zip(sa, sb):
-        if x[0] != y[0]:
+        lx, ly = seg_len(x), seg_len(y)
+        same_len = (isinstance(lx, int) and isinstance(ly, int) and lx == ly) or \
+                   (not isinstance(lx, int) and not isinstance(ly, int) and lx.eq(ly))
+        if not same_len:
             return None
-        if x[0] == 'lit':
+        if x[0] == 'lit' and y[0] == 'lit':
             if x[1] != y[1]:
-                if len(x[1]) == len(y[1]):
-                    return False
-                return None
-        elif x[0] == 'sym':
-            conds.append(x[1] == y[1])
-        else:
-            if x[1] != y[1]:
-                return None
+                return False
+            continue
+        if x[0] == 'packed' and y[0] == 'packed' and x[1] == y[1]:
             conds.append(iterm(x[3]) == iterm(y[3]))
+            continue
+        tx, ty = seg_term(x), seg_term(y)
+        if tx.eq(ty):
+            continue
+        conds.append(tx == ty)
     return conj_terms(conds)
+
+
+def _align(sa, sb):
+    """split literal segments so both lists share all boundaries; None if a non-literal would need splitting"""
+    ia = ib = 0
+    oa, ob = [], []
+    sa, sb = list(sa), list(sb)
+    while ia < len(sa) and ib < len(sb):
+        x, y = sa[ia], sb[ib]
+        lx, ly = seg_len(x), seg_len(y)
+        if lx == ly:
+            oa.append(x)
+            ob.append(y)
+            ia += 1
+            ib += 1
+        elif lx < ly:
+            if y[0] != 'lit':
+                return None, None
+            oa.append(x)
+            ob.append(('lit', y[1][:lx]))
+            sb[ib] = ('lit', y[1][lx:])
+            ia += 1
+        else:
+            if x[0] != 'lit':
+                return None, None
+            ob.append(y)
+            oa.append(('lit', x[1][:ly]))
+            sa[ia] = ('lit', x[1][ly:])
+            ib += 1
+    if ia != len(sa) or ib != len(sb):
+        return None, None
+    return oa, ob
 
 
 # ------------------------------------------------------------------------------ struct
@@ -201,6 +245,22 @@ def unpack_model(interp, st, fmt, data):
     if len(segs) == 1 and segs[0][0] == 'packed' and segs[0][1] == fmt:
         yield st, VTuple([mk_int(segs[0][3])])
         return
+    if len(segs) == 1 and segs[0][0] in ('sym', 'packed') and seg_len(segs[0]) == size:
+        # a value produced by int.to_bytes / pack of another format with the same width and byte order:
+        # read back the encoded unsigned number syntactically
+        t = seg_term(segs[0])
+        enc = None
+        if z3.is_app(t) and t.decl().kind() == z3.Z3_OP_STR_FROM_CODE and size == 1:
+            enc = t.arg(0)
+        elif z3.is_app(t) and t.decl().name() == ('int_to_le' if order == 'little' else 'int_to_be') and \
+                z3.is_int_value(z3.simplify(t.arg(1))) and z3.simplify(t.arg(1)).as_long() == size:
+            enc = t.arg(0)
+        if enc is not None:
+            if signed:
+                yield st, VTuple([mk_int(z3.If(enc >= 2 ** (8 * size - 1), enc - 2 ** (8 * size), enc))])
+            else:
+                yield st, VTuple([mk_int(enc)])
+            return
     if all(s[0] == 'lit' for s in segs):
         raw = b''.join(s[1] for s in segs)
         try:
